@@ -25,6 +25,8 @@ MUTANTS = [
     {'name': 'letter confidence from unnormalised logits', 'file': CE, 'old': '    log_probs = normalize_logits(logits)\n', 'new': '    log_probs = logits\n'},
     {'name': 'confident-line test inverted for large thresholds', 'file': PP, 'old': '    return worst_best_prob > confidence_threshold',
      'new': '    return worst_best_prob > confidence_threshold or confidence_threshold > 0.99'},
+    {'name': 'original-defect: fixed sentinel 1000 as the end of the line (lines with more than ~1000 frames raise)', 'file': 'pero_ocr/core/confidence_estimation.py',
+     'old': 'alignment = np.concatenate([aligned_letters, [2 * log_probs.shape[0]]])', 'new': 'alignment = np.concatenate([aligned_letters, [1000]])'},
 ]
 
 
@@ -293,6 +295,17 @@ def run(ctx):
                     res['evaluations'], res['nontrivial'], False, res['samples'], fails,
                     rule='every k-th matrix of the product (stated stride); non-trivial = at least three frames',
                     clause='range; shift invariance; threshold monotonicity; normalised posteriors')
+    from props import _longline
+    import numpy as np_
+    from scipy import sparse as sparse_
+    from pero_ocr.core import layout as layout_, confidence_estimation as ce_
+    try:
+        n_, bad_ = _longline.check_confidence(np_, sparse_, layout_, ce_)
+    except Exception as e:
+        n_, bad_ = 4, [('no-exception', 'long-line check raised %r' % (e,))]
+    ctx.add_bounded('long-lines', 'lines of 600 / 1040 / 1300 / 2100 logit frames with nearly one-hot posteriors whose last characters lie within the last 200 frames', n_, n_, False,
+                    [{'frames': 1300}], [Failure(sig('rt', 'confidence', c_), d_, function='get_line_confidence', input={'long_line': True}, observed=d_, clause=c_) for c_, d_ in bad_[:1]],
+                    rule='fixed cases', clause='per-character confidences exist and lie in [0, 1] for lines of any length')
     bounded.close()
     ctx.trusted += ['axioms: exp(x) > 0; x <= 0 => exp(x) <= 1; logsumexp(xs) >= every x_i (A2: reals, no round-off)']
     if thorough:
@@ -308,6 +321,13 @@ def replay(entry):
     from pero_ocr.core import layout
     from pero_ocr.decoding.bag_of_hypotheses import BagOfHypotheses
     inp = entry.get('input') or {}
+    if inp.get('long_line'):
+        from props import _longline
+        n_, bad = _longline.check_confidence(np, sparse, layout, ce)
+        for b in bad:
+            print('REPLAY-FAIL', b)
+        print('replay: %d problem(s) on the long lines' % len(bad))
+        return 1 if bad else 0
     if 'logits' in inp:
         bad = check_matrix(np, sparse, ce, pp, layout, inp['logits'])
     elif inp.get('case') == 'one-hot':
